@@ -312,6 +312,9 @@ class FrequencyResponseData(LTI):
             if isinstance(args[0], LTI):
                 arg_dt = common_timebase(args[0].dt, arg_dt)
             kwargs['dt'] = arg_dt
+        elif isinstance(args[0], LTI) and 'dt' not in kwargs:
+            # converted/copied system with unspecified timebase stays so
+            kwargs['dt'] = None
 
         # Process signal names
         name, inputs, outputs, states, dt = _process_iosys_keywords(
